@@ -103,6 +103,7 @@ let parse_op (toks : string list) : op =
   | ["copydir"; p; q] -> OCopyDir (ps p, ps q)
   | ["movedir"; p; q] -> OMoveDir (ps p, ps q)
   | ["walkdir"; p] -> OWalkDir (ps p)
+  | ["walkrm"; p; k; q] -> OWalkRm (ps p, nat k, ps q)
   | ["probe"; p] -> OProbe (ps p)
   | ["snap"; k] -> OSnap (nat k)
   | ["tree"; k] -> OTree (nat k)
